@@ -48,7 +48,7 @@ def parseTy (t : String) : Option Ty :=
     match t.splitOn ":" with
     | [d, p, s] =>
       let w := match d with | "d32" => some 32 | "d64" => some 64 | "d128" => some 128 | "d256" => some 256 | _ => none
-      match w, p.toNat?, parseInt s with
+      match w, p.toNat?, Proto.parseInt s with
       | some w, some p, some s => some (.dec w p s)
       | _, _, _ => none
     | ["ts", u] => (unitIdx u).map .ts
@@ -110,6 +110,7 @@ def dayMs : Nat := Generated.C13.SECONDS_IN_DAY * Generated.C13.MILLISECONDS
 
 def plan (src dst : Ty) : Plan :=
   if src == dst then .ident else
+  if (match dst with | .dec w p s => !validDecType w p s | _ => false) then .typeErr else
   match src, dst with
   | .float, _ | _, .float => .skip
   -- decimals
@@ -195,7 +196,7 @@ def parseTok (ty : Ty) (t : String) : Option (Val × Bool) :=
     else (true, t)
   match ty with
   | .str => if pl = "" then some (.s [], valid) else (parseHexStr pl).map (fun cs => (.s cs, valid))
-  | _ => if pl = "" then some (.i 0, valid) else (parseInt pl).map (fun x => (.i x, valid))
+  | _ => if pl = "" then some (.i 0, valid) else (Proto.parseInt pl).map (fun x => (.i x, valid))
 
 def showVal : Val → String
   | .i x => toString x
